@@ -278,27 +278,25 @@ func fmtWrites(a map[uint32]byte) string {
 	return sb.String()
 }
 
-// hazard: an address both read and written in one step, other than the
-// read-modify-write of the operand itself: result depends on bus micro-order.
-func hazard(m *mem.Image, inf ref.Info) bool {
-	rmw := false
-	switch ref.MnemNames[inf.M] {
-	case "asl", "lsr", "rol", "ror", "inc", "dec", "tsb", "trb", "mvn", "mvp":
-		rmw = true
+// hazard reports the steps on which the oracle abstains because the outcome
+// depends on bus micro-order the programming model does not fix: the
+// instruction's own writes land on its own opcode/operand bytes (e.g. a JSL
+// whose pushes overwrite the bank byte it has yet to fetch). Every other
+// read/write overlap has a defined order in the model - pointers and data are
+// read before the store of the same instruction, JSR (abs,X) and BRK/COP push
+// before they read their pointer/vector, a read-modify-write reads before it
+// writes - and is judged.
+func hazard(m *mem.Image, inf ref.Info, pre ref.State) bool {
+	if len(m.SWr) == 0 {
+		return false
 	}
-	n := 0
-	for a := range m.Wr {
-		if m.Rd[a] {
-			n++
+	k := uint32(pre.K) << 16
+	for i := 0; i < inf.Len; i++ {
+		if m.SWr[k|uint32(pre.PC+uint16(i))] {
+			return true
 		}
 	}
-	if n == 0 {
-		return false
-	}
-	if rmw && n <= 2 {
-		return false
-	}
-	return true
+	return false
 }
 
 func evNames(ev uint32) []string {
